@@ -379,7 +379,10 @@ impl<S: Sut> World<S> {
                 self.want_dot.push(g.want_dot);
                 self.descs.push(g.desc.clone());
                 self.ops.push(g.op.clone());
-                if self.cfg.has(mon::VOP) && !self.cfg.misuse {
+                if g.jumped {
+                    self.st.ev("fast_forward");
+                }
+                if self.cfg.has(mon::VOP) && !self.cfg.misuse && !g.jumped {
                     // an op is always valid at its own origin
                     self.st.ev("vop_origin");
                     if let Err(e) = self.reps[r].validate_op_s(&g.op) {
